@@ -24,6 +24,23 @@ import types
 from fractions import Fraction
 
 
+class LitFraction(Fraction):
+    """a float literal as an exact rational; numpy ufuncs applied to it at import time (default arguments such as
+    np.exp(.000001)) fall back to these methods"""
+
+    def exp(self):
+        import math
+        return math.exp(self)
+
+    def log(self):
+        import math
+        return math.log(self)
+
+    def sqrt(self):
+        import math
+        return math.sqrt(self)
+
+
 class OpaqueModule(types.ModuleType):
     """Stub for an unavailable third-party module (matplotlib, Bio...)."""
 
@@ -136,7 +153,7 @@ class Sandbox:
             mod.__path__ = [os.path.dirname(path)]
         self.pymods[dotted] = mod
         mi.ns = mod.__dict__
-        mod.__dict__['__Fraction__'] = Fraction
+        mod.__dict__['__Fraction__'] = LitFraction
         mod.__dict__['__builtins__'] = self._builtins()
         mod.__dict__['__name__'] = dotted
         # register function ASTs (from the *untransformed* tree)
